@@ -1095,10 +1095,18 @@ func (d *dealer) syncYield(callee *wamp.Session, msg *wamp.Yield, progress, canR
 
 		// Let's check: was ppt feature announced by callee?
 		if !callee.HasFeature(wamp.RoleCallee, wamp.FeaturePayloadPassthruMode) {
+			// The call ends here. Remove it, so that the callee's departure
+			// does not answer the caller a second time.
+			if invk.timerCancel != nil {
+				invk.timerCancel()
+			}
+			delete(d.invocations, invkReqID)
+			delete(d.invocationByCall, callID)
+			delete(d.calls, callID)
 			// Notify caller that CALL was erred.
 			d.trySend(caller, &wamp.Error{
-				Type:    msg.MessageType(),
-				Request: msg.Request,
+				Type:    wamp.CALL,
+				Request: callID.request,
 				Details: wamp.Dict{
 					"error": ErrPPTNotSupportedByPeer.Error(),
 				},
@@ -1123,6 +1131,18 @@ func (d *dealer) syncYield(callee *wamp.Session, msg *wamp.Yield, progress, canR
 				},
 				Error: wamp.ErrFeatureNotSupported,
 			})
+			if !progress {
+				// This was the final result, so the call ends here and the
+				// caller must be told.
+				d.trySend(caller, &wamp.Error{
+					Type:    wamp.CALL,
+					Request: callID.request,
+					Details: wamp.Dict{
+						"error": ErrPPTNotSupportedByPeer.Error(),
+					},
+					Error: wamp.ErrFeatureNotSupported,
+				})
+			}
 			return false
 		}
 
